@@ -21,14 +21,14 @@ def _q(fam, api, table, n, wrap, flush, eos, avail, cls, tier, exact=False, hist
         exact = True
     hdef = ["N=%d" % n, "API=%d" % api, "WRAP=%d" % wrap, "FLUSH=%d" % flush, "EOS=%d" % eos, "TABLE=%d" % table,
             "AVAIL_OUT=%d" % avail, "HIST_BITS=%d" % hist, "EXPECT_OK=%d" % expect_ok, "ORACLE=%d" % (0 if exact else 1),
-            "RFC_MAXBLOCKS=%d" % (2 if (flush and not eos and api == 0) else 1),
+            "RFC_MAXBLOCKS=%d" % (3 if (flush and not eos and api == 0) else 1),
             D.cdef("DFL_CLASSES", classes), D.cdef("DFL_TOKLENS", toklens),
             D.cdef("DFL_CLASS_SET", D.STATIC_LIT_CLASSES if table == 1 else DEFAULT_CLASSES)]
     qid = "%s/%s/n%d/%s/f%d%s/a%d%s/%s%s" % (fam, "static" if table else "default", n, D.WRAPS[wrap], flush,
                                              ("e%d" % eos) if api == 0 and flush else "", avail,
                                              ("/h%d" % hist) if hist else "", tag, "/exact" if exact and not dynamic else "")
-    params = dict(harness=H, units=D.UNITS, hdefines=hdef, unwind=3,
-                  unwindset=D.unwindset(n, exact=exact, dynamic=dynamic, avail=avail), witness=bool(witness and feasible),
+    params = dict(harness=H, units=D.UNITS, vunits=D.VUNITS, hdefines=hdef, unwind=3,
+                  unwindset=D.unwindset(n, exact=exact, dynamic=dynamic, avail=avail, nblk=(3 if (flush and not eos and api == 0) else 2)), witness=bool(witness and feasible),
                   flags=D.fs_flags(avail))
     if n >= 4:
         params["remove"] = ["compute_hash"]
@@ -108,15 +108,12 @@ def plan(tier, ctx):
         qs.append(_q("ST", 1, 1, n, wrap, flush, 0, 64, cls, tier, exact=True, witness=True, timeout=(None if quick else 1200)))
 
     # ---------------------------------------------------------------- streaming API, one call, default table (dynamic block, exact oracle)
-    for n in ([0, 1] if quick else [0, 1, 2]):
-        for wrap in ((0, 1, 3) if quick else allw):
-            for flush in ((0,) if quick else (0, 1, 2)):
-                if n == 2 and not (wrap in (0, 1) and flush == 0):
-                    continue
-                for cls in vecs(n, DEFAULT_CLASSES, other=(wrap == 0 and flush == 0)):
-                    qs.append(_q("ST", 1, 0, n, wrap, flush, 0, 256, cls, tier, core=False,
-                                 witness=(n == 1 and cls[1] == [DEFAULT_CLASSES[len(DEFAULT_CLASSES) // 2]]),
-                                 timeout=(None if quick else 600)))
+    # n >= 1 is not decided with the exact oracle: the last 6 header bits share a byte with the first
+    # (symbolic) literal code, the header parse of rfc_dynamic becomes symbolic and explodes (measured: no
+    # verdict in 1200 s at n = 1).  n = 0: the whole dynamic header + EOB + trailer, all wrappers.
+    for wrap in allw:
+        for flush in ((0,) if quick else (0, 1, 2)):
+            qs.append(_q("ST", 1, 0, 0, wrap, flush, 0, 256, nocls, tier, core=(wrap == 1 and flush == 0), witness=(wrap in (1, 3)), weight=15))
 
     return Plan("C01", "model_checking", qs,
                 functions_encoded=["isal_deflate_stateless", "isal_deflate (single call, end_of_stream=1)", "isal_deflate_init",
